@@ -36,6 +36,11 @@ func Hmeta() {
 				mt = ft.Elem().Elem()
 			}
 			vOut("host_"+vItoa(ti)+"_"+vItoa(i), int(getGlobalMesgNum(mt)))
+			if ft.Kind() == reflect.Slice {
+				vOut("hostslice_"+vItoa(ti)+"_"+vItoa(i), 1)
+			} else {
+				vOut("hostslice_"+vItoa(ti)+"_"+vItoa(i), 0)
+			}
 		}
 	}
 	// struct field counts per message
